@@ -645,3 +645,19 @@ func C11Reuse(g *ref.Grammar, mk func() Parser, quote func(string) string, n1, n
 	checkError(p, r, in2, n2, quote, "/after-reset")
 	rt.Reach("reject")
 }
+
+// C02Entry: -switch (without -inline every rule keeps its function) against the default parser
+// from an arbitrary entry rule.
+func C02Entry(g *ref.Grammar, def, sw func() Parser, n, rule, nsw int) {
+	in := NewInput("in", n, nsw)
+	p0 := start(def, in, true, -1)
+	ok0 := p0.Parse(entryIndex(p0, g, rule))
+	p1 := start(sw, in, true, -1)
+	ok1 := p1.Parse(entryIndex(p1, g, rule))
+	rt.ObserveBool("ok", ok0)
+	rt.Assert("verdict/switch/entry-rule", ok0 == ok1)
+	if ok0 && ok1 {
+		rt.Assert("tokens/switch/entry-rule", sameToks(p0.Tokens(), p1.Tokens()))
+	}
+	rt.Reach("done")
+}
